@@ -70,6 +70,7 @@ func runParseCase(c *c26Case) (out c26Outcome) {
 	base := map[string]string{
 		"test": "parse", "form": tops[0].Form, "strprof": c.Prof.Str, "intprof": c.Prof.Int,
 		"style": strconv.Itoa(c.Prof.Style), "nonascii": strconv.FormatBool(hasNonASCII(text)),
+		"zeros": strconv.FormatBool(c.Prof.Zeros),
 	}
 	fail := func(symptom, where, kind, detail string) {
 		m := map[string]string{"symptom": symptom, "where": where, "kind": kind}
@@ -275,6 +276,7 @@ func kindAt(c *pql.Call, path string) string {
 func variants(b behav.Behaviour, mode string, seed int64, idx int) []Profile {
 	hasStr := behHas(b, `"k":"str"`, `"t":"str"`, `"t":"strs"`)
 	hasInt := behHas(b, `"k":"int"`, `"t":"i64"`, `"t":"u64"`, `"t":"i64s"`, `"t":"u64s"`, `"k":"btwc"`)
+	hasFloat := mode != "fwd" && behHas(b, `"k":"float"`)
 	h := int(behav.Hash64(fmt.Sprintf("%d|%d", seed, idx)) % 1000)
 	var out []Profile
 	if mode == "fwd" {
@@ -300,8 +302,18 @@ func variants(b behav.Behaviour, mode string, seed int64, idx int) []Profile {
 	} else {
 		// quick tier: two of the five styles per behaviour (every style is still used by a
 		// fifth of the behaviours); a parse costs a 512 KB token buffer in the generated parser
-		out = append(out, Profile{Str: "ascii", Int: "id", Style: h % NStyles, Seed: seed},
-			Profile{Str: "ascii", Int: "id", Style: (h + 3) % NStyles, Seed: seed})
+		second := Profile{Str: "ascii", Int: "id", Style: (h + 3) % NStyles, Seed: seed}
+		if hasInt || hasFloat {
+			// numbers written with leading zeros, over values whose digits would read
+			// differently in another base (010, 0644, -011)
+			second.Int, second.Zeros = "ten", true
+		}
+		out = append(out, Profile{Str: "ascii", Int: "id", Style: h % NStyles, Seed: seed}, second)
+	}
+	if !few && (hasInt || hasFloat) {
+		out = append(out, Profile{Str: "ascii", Int: "ten", Style: h % NStyles, Seed: seed, Zeros: true},
+			Profile{Str: "ascii", Int: "ten", Style: (h + 2) % NStyles, Seed: seed, Zeros: true},
+			Profile{Str: "ascii", Int: "edge", Style: (h + 1) % NStyles, Seed: seed, Zeros: true})
 	}
 	if hasStr {
 		for i, sp := range StrProfileNames[1:] {
@@ -379,6 +391,9 @@ func runC26(t *testing.T, mode string) {
 		}
 		res.Cover(fmt.Sprintf("%s/strprof/%s", mode, j.p.Str))
 		res.Cover(fmt.Sprintf("%s/style/%d", mode, j.p.Style))
+		if j.p.Zeros {
+			res.Cover(mode + "/leading-zeros")
+		}
 		if len(c.Beh) > 2 && distinct.Add(out.Text) {
 			res.CountNontrivial()
 		}
